@@ -339,7 +339,8 @@ def eval_amorphous(ctx, tier):
     seeds = [1, 2] if tier == "quick" else list(range(1, 13))
     for L in range(3, 9):
         for obc in (False, True):
-            # corpus of earlier failures first: (3, open, seed 3) and (6, open, seed 14) raise PathFindingError on the unchanged tree
+            # regression cases first: (3, open, seed 3) and (6, open, seed 14) raised PathFindingError before fix d10d878
+            # (the cut lattice's plaquette-adjacency graph was disconnected)
             corpus = [3] if (L == 3 and obc) else [14] if (L == 6 and obc) else []
             for sd in corpus + [x for x in seeds if x not in corpus]:
                 if tier == "quick" and L >= 7 and sd > 1:
@@ -350,22 +351,7 @@ def eval_amorphous(ctx, tier):
                     lat, col, ujk = eg.make_amorphous(L, open_boundary_conditions=obc, rng=np.random.default_rng(sd))
                     lat2, col2, ujk2 = eg.make_amorphous(L, open_boundary_conditions=obc, rng=np.random.default_rng(sd))
                 except Exception as e:
-                    key = "make_amorphous-raised"
-                    extra = ""
-                    if obc and isinstance(e, pf.PathFindingError):
-                        # rebuild the lattice the constructor was working on (same generator state) and look at its plaquette graph
-                        try:
-                            from koala import voronization
-                            from koala.lattice import cut_boundaries
-                            pts = np.random.default_rng(sd).uniform(size=(L**2, 2))
-                            cl = cut_boundaries(voronization.generate_lattice(pts, shift_vertices=True))
-                            nc = plaq_components(cl)
-                            if nc > 1:
-                                key = "make_amorphous-open:disconnected-plaquette-graph"
-                                extra = f" -- the cut lattice has {cl.n_plaquettes} plaquettes in {nc} components of the plaquette-adjacency graph"
-                        except Exception:
-                            pass
-                    res.violation(key, f"make_amorphous({L}, open_boundary_conditions={obc}, rng=default_rng({sd})) raised {type(e).__name__}: {e}{extra}", rcase)
+                    res.violation("make_amorphous-raised", f"make_amorphous({L}, open_boundary_conditions={obc}, rng=default_rng({sd})) raised {type(e).__name__}: {e}", rcase)
                     continue
                 same = (np.array_equal(lat.vertices.positions, lat2.vertices.positions) and np.array_equal(lat.edges.indices, lat2.edges.indices)
                         and np.array_equal(lat.edges.crossing, lat2.edges.crossing) and np.array_equal(col, col2) and np.array_equal(ujk, ujk2))
